@@ -3,6 +3,7 @@ From Bifrost Require Import Lib.Base Link.Model Link.Maps.
 
 Section Proofs.
   Variable U : nat -> link.
+  Variable lb : bool.   (* does HandleLinkLost broadcast *)
   Notation uuid_of := (uuid_of U).
   Notation remote_of := (remote_of U).
   Notation local_of := (local_of U).
@@ -10,9 +11,9 @@ Section Proofs.
   Notation insert := (insert U).
   Notation do_est := (do_est U).
   Notation do_lost := (do_lost U).
-  Notation step := (step U).
-  Notation run_from := (run_from U).
-  Notation run := (run U).
+  Notation step := (step_gen U lb).
+  Notation run_from := (run_gen U lb).
+  Notation run me h := (run_gen U lb (init me) h).
   Notation live := (live U).
   Notation live_step := (live_step U).
 
@@ -142,9 +143,9 @@ Section Proofs.
     Inv s -> do_lost s p = if option_eqb Nat.eqb (lget s (uuid_of p)) (Some p) then flush s p else s.
   Proof.
     intros I. unfold do_lost.
-    assert (Hpre : Model.flush U (mkState (st_peer s) (adel (uuid_of p) (st_links s)) (st_by_peer s) (st_closed s)) p
+    assert (Hpre : Model.flush U (mkState (st_peer s) (adel (uuid_of p) (st_links s)) (st_by_peer s) (st_closed s) (st_dirs s)) p
                    = flush s p).
-    { unfold Model.flush. cbn [st_peer st_links st_by_peer st_closed]. rewrite adel_idem.
+    { unfold Model.flush. cbn [st_peer st_links st_by_peer st_closed st_dirs]. rewrite adel_idem.
       unfold peer_links. cbn [st_by_peer]. reflexivity. }
     assert (Hslow : lget s (uuid_of p) <> Some p -> find_val p (st_links s) = None).
     { intros Hn. destruct (find_val p (st_links s)) as [k|] eqn:E; [|reflexivity].
@@ -157,9 +158,40 @@ Section Proofs.
     - rewrite Hslow; [reflexivity|congruence].
   Qed.
 
-  Lemma step_peer s a : st_peer (fst (step s a)) = st_peer s.
+  (* the table part of a step; directives are bookkeeping on top of it *)
+  Definition core (s : state) (a : action) : state :=
+    match a with Est p => do_est s p | Lost p => do_lost s p | Resolve _ _ => s end.
+
+  Lemma set_dirs_eta s : set_dirs s (st_dirs s) = s.
+  Proof. destruct s; reflexivity. Qed.
+
+  Lemma dir_start_core s a b : exists d, dir_start s a b = set_dirs s d.
   Proof.
-    destruct a as [p|p|src dst]; cbn [step fst]; [| |reflexivity].
+    unfold dir_start. destruct (dir_find a b (st_dirs s)).
+    - exists (st_dirs s). symmetry. apply set_dirs_eta.
+    - eexists. reflexivity.
+  Qed.
+
+  Lemma step_core s a : exists d, fst (step s a) = set_dirs (core s a) d.
+  Proof.
+    destruct a as [p|p|src dst]; cbn [step_gen core].
+    - destruct (est_stores U s p); cbn [fst].
+      + destruct (dir_start_core (do_est s p) (Model.local_of U p) (Model.remote_of U p)) as [d ->].
+        eexists. reflexivity.
+      + exists (st_dirs (do_est s p)). symmetry. apply set_dirs_eta.
+    - destruct (lb && lost_flushes U s p); cbn [fst].
+      + eexists. reflexivity.
+      + exists (st_dirs (do_lost s p)). symmetry. apply set_dirs_eta.
+    - destruct (Z.eqb dst 0); cbn [fst]; [exists (st_dirs s); symmetry; apply set_dirs_eta|].
+      destruct (dir_start_core s src dst) as [d ->].
+      destruct (Z.eqb src 0).
+      + destruct (dir_start_core (set_dirs s d) (st_peer s) dst) as [d' ->]. exists d'. reflexivity.
+      + exists d. reflexivity.
+  Qed.
+
+  Lemma core_peer s a : st_peer (core s a) = st_peer s.
+  Proof.
+    destruct a as [p|p|src dst]; cbn [core]; [| |reflexivity].
     - unfold Model.do_est. destruct (Z.eqb _ _); [reflexivity|].
       destruct (aget _ _) as [q|]; [destruct (Nat.eqb q p)|]; reflexivity.
     - unfold Model.do_lost.
@@ -167,12 +199,18 @@ Section Proofs.
         destruct (find_val _ _); reflexivity.
   Qed.
 
+  Lemma step_peer s a : st_peer (fst (step s a)) = st_peer s.
+  Proof. destruct (step_core s a) as [d ->]. apply core_peer. Qed.
+
+  Lemma inv_set_dirs s d : Inv s -> Inv (set_dirs s d).
+  Proof. intros [A B C D E F]. constructor; assumption. Qed.
+
   Lemma inv_close_only s p : Inv s -> Inv (close_only s p).
   Proof. intros I. destruct I. constructor; assumption. Qed.
 
-  Lemma inv_step s a : Inv s -> Inv (fst (step s a)).
+  Lemma inv_core s a : Inv s -> Inv (core s a).
   Proof.
-    intros I. destruct a as [p|p|src dst]; cbn [step fst]; [| |exact I].
+    intros I. destruct a as [p|p|src dst]; cbn [core]; [| |exact I].
     - unfold Model.do_est. destruct (Z.eqb_spec (remote_of p) (st_peer s)) as [Hs|Hs].
       + apply inv_close_only, I.
       + fold (lget s (uuid_of p)). destruct (lget s (uuid_of p)) as [q|] eqn:Eq.
@@ -189,6 +227,9 @@ Section Proofs.
       destruct (Nat.eqb_spec q p) as [->|]; [|exact I].
       apply inv_flush; assumption.
   Qed.
+
+  Lemma inv_step s a : Inv s -> Inv (fst (step s a)).
+  Proof. intros I. destruct (step_core s a) as [d ->]. apply inv_set_dirs, inv_core, I. Qed.
 
   Lemma inv_run_from s h : Inv s -> Inv (run_from s h).
   Proof.
@@ -210,10 +251,10 @@ Section Proofs.
     - intros H. exists p. split; [exact H|apply Nat.eqb_refl].
   Qed.
 
-  Lemma rel_step s L a :
-    Inv s -> Rel s L -> Rel (fst (step s a)) (live_step (st_peer s) L a).
+  Lemma rel_core s L a :
+    Inv s -> Rel s L -> Rel (core s a) (live_step (st_peer s) L a).
   Proof.
-    intros I R. destruct a as [p|p|src dst]; cbn [step fst Model.live_step]; [| |exact R].
+    intros I R. destruct a as [p|p|src dst]; cbn [core Model.live_step]; [| |exact R].
     - unfold Model.do_est. destruct (Z.eqb_spec (remote_of p) (st_peer s)) as [Hs|Hs]; [exact R|].
       fold (lget s (uuid_of p)).
       assert (Hins : forall s1, (forall k, lget s1 k = if Z.eqb k (uuid_of p) then None else lget s k) ->
@@ -251,12 +292,16 @@ Section Proofs.
         destruct (Nat.eqb_spec x p) as [->|]; [|reflexivity]. congruence.
   Qed.
 
+  Lemma rel_step s L a :
+    Inv s -> Rel s L -> Rel (fst (step s a)) (live_step (st_peer s) L a).
+  Proof. intros I R. destruct (step_core s a) as [d ->]. apply (rel_core s L a I R). Qed.
+
   Lemma rel_run_from me h : forall s L,
     Inv s -> Rel s L -> st_peer s = me -> Rel (run_from s h) (fold_left (live_step me) h L).
   Proof.
     induction h as [|a h IH]; intros s L I R Hme; [exact R|].
-    cbn [Model.run_from fold_left].
-    change (fold_left (fun s a => fst (step s a)) h (fst (step s a))) with (run_from (fst (step s a)) h).
+    cbn [Model.run_gen fold_left].
+    change (Rel (run_from (fst (step s a)) h) (fold_left (live_step me) h (live_step me L a))).
     apply IH; [apply inv_step, I| |rewrite step_peer; exact Hme].
     rewrite <- Hme. apply rel_step; assumption.
   Qed.
@@ -294,17 +339,20 @@ Section Proofs.
   Proof. apply inv_nodup, inv_run. Qed.
 
   Lemma run_app me h h' : run me (h ++ h') = run_from (run me h) h'.
-  Proof. unfold Model.run, Model.run_from. apply fold_left_app. Qed.
+  Proof. unfold Model.run_gen. apply fold_left_app. Qed.
 
   Lemma live_app me h h' : live me (h ++ h') = fold_left (live_step me) h' (live me h).
   Proof. unfold Model.live. apply fold_left_app. Qed.
 
-  Lemma run_peer me h : st_peer (run me h) = me.
+  Lemma run_from_peer h : forall s, st_peer (run_from s h) = st_peer s.
   Proof.
-    unfold Model.run. generalize (init me) (eq_refl : st_peer (init me) = me).
-    induction h as [|a h IH]; intros s Hs; [exact Hs|].
-    cbn [Model.run_from fold_left]. apply IH. rewrite step_peer. exact Hs.
+    induction h as [|a h IH]; intros s; [reflexivity|].
+    cbn [Model.run_gen fold_left]. change (st_peer (run_from (fst (step s a)) h) = st_peer s).
+    rewrite IH. apply step_peer.
   Qed.
+
+  Lemma run_peer me h : st_peer (run me h) = me.
+  Proof. apply (run_from_peer h (init me)). Qed.
 
   (* ---- properties of the live specification ---- *)
   Lemma live_lost_absent me : forall h' L q,
@@ -401,7 +449,7 @@ Section Proofs.
       unfold Model.do_est. cbn [st_peer close_only].
       destruct (Z.eqb_spec (remote_of p) (st_peer s)); [reflexivity|contradiction].
     - pose proof (do_est_lget s p Hs) as H.
-      assert (Hp : st_peer (do_est s p) = st_peer s) by (apply (step_peer s (Est p))).
+      assert (Hp : st_peer (do_est s p) = st_peer s) by (apply (core_peer s (Est p))).
       unfold Model.do_est at 1. rewrite Hp.
       destruct (Z.eqb_spec (remote_of p) (st_peer s)); [contradiction|].
       unfold lget in H. fold (Model.uuid_of U p). rewrite H, Nat.eqb_refl. reflexivity.
@@ -411,7 +459,8 @@ Section Proofs.
   (* every link ever reported established is in the table or has been closed *)
   Lemma closed_mono_step s a q : In q (st_closed s) -> In q (st_closed (fst (step s a))).
   Proof.
-    intros H. destruct a as [p|p|src dst]; cbn [step fst]; [| |exact H].
+    intros H. destruct (step_core s a) as [d ->]. cbn [set_dirs st_closed].
+    destruct a as [p|p|src dst]; cbn [core]; [| |exact H].
     - unfold Model.do_est. destruct (Z.eqb _ _); [right; exact H|].
       destruct (aget _ _) as [x|]; [destruct (Nat.eqb x p)|]; cbn; auto.
     - unfold Model.do_lost.
@@ -425,7 +474,9 @@ Section Proofs.
   Lemma tracked_step s a q : Inv s -> Tracked s q -> Tracked (fst (step s a)) q.
   Proof.
     intros I [H|H]; [|right; apply closed_mono_step, H].
-    destruct a as [p|p|src dst]; cbn [step fst]; [| |left; exact H].
+    destruct (step_core s a) as [d ->].
+    change (Tracked (core s a) q).
+    destruct a as [p|p|src dst]; cbn [core]; [| |left; exact H].
     - unfold Model.do_est. destruct (Z.eqb _ _); [left; exact H|].
       fold (lget s (uuid_of p)). destruct (lget s (uuid_of p)) as [x|] eqn:Ex.
       + destruct (Nat.eqb_spec x p) as [->|Hn]; [left; exact H|].
@@ -447,7 +498,8 @@ Section Proofs.
 
   Lemma tracked_est s q : Inv s -> Tracked (fst (step s (Est q))) q.
   Proof.
-    intros I. cbn [step fst].
+    intros I. destruct (step_core s (Est q)) as [d ->].
+    change (Tracked (do_est s q) q).
     destruct (Z.eqb_spec (remote_of q) (st_peer s)) as [Hs|Hs].
     - right. unfold Model.do_est. destruct (Z.eqb_spec (remote_of q) (st_peer s)); [|contradiction].
       cbn. auto.
@@ -463,7 +515,7 @@ Section Proofs.
   Theorem established_tracked me h q : In (Est q) h -> Tracked (run me h) q.
   Proof.
     intros H. apply in_split in H as [h1 [h2 ->]].
-    rewrite run_app. cbn [Model.run_from fold_left].
+    rewrite run_app. cbn [Model.run_gen fold_left].
     apply (tracked_run_from h2 (fst (step (run me h1) (Est q)))).
     - apply inv_step, inv_run.
     - apply tracked_est, inv_run.
@@ -550,4 +602,254 @@ Section Proofs.
   Theorem stream_peer_is_link_remote p :
     mounted_stream_peer U p = remote_of p /\ incoming_directive U p = (local_of p, remote_of p).
   Proof. split; reflexivity. Qed.
+  (* ---- running directives (the values EstablishLinkWithPeer yields) ---- *)
+  Lemma resolve_set_dirs s d a b : resolve (set_dirs s d) a b = resolve s a b.
+  Proof. reflexivity. Qed.
+
+  Lemma resolve_sound_state s a b q :
+    Inv s -> In q (resolve s a b) ->
+    (a = 0 \/ a = st_peer s) /\ b <> 0 /\ remote_of q = b /\ remote_of q <> st_peer s
+    /\ lget s (uuid_of q) = Some q.
+  Proof.
+    intros I. unfold resolve.
+    destruct (Z.eqb_spec b 0); [intros []|].
+    assert (Hpl : In q (peer_links b s) ->
+                  remote_of q = b /\ remote_of q <> st_peer s /\ lget s (uuid_of q) = Some q).
+    { intros H. apply (inv_index _ I) in H as [H1 H2]. pose proof (inv_noself _ I _ H1). tauto. }
+    destruct (Z.eqb_spec a 0) as [->|Ha]; cbn [negb andb].
+    - intros H. apply Hpl in H. tauto.
+    - destruct (Z.eqb_spec a (st_peer s)) as [->|]; cbn [negb]; [|intros []].
+      intros H. apply Hpl in H. tauto.
+  Qed.
+
+  Lemma dir_find_in a b d v : dir_find a b d = Some v -> In (a, b, v) d.
+  Proof.
+    induction d as [|[[a' b'] v'] d IH]; cbn [dir_find]; [discriminate|].
+    destruct (Z.eqb_spec a' a) as [->|]; cbn [andb]; [|right; auto].
+    destruct (Z.eqb_spec b' b) as [->|]; [|right; auto].
+    intros E; inversion E; subst. left; reflexivity.
+  Qed.
+
+  Lemma dir_start_dirs s a b x :
+    In x (st_dirs (dir_start s a b)) -> In x (st_dirs s) \/ x = (a, b, resolve s a b).
+  Proof.
+    unfold dir_start. destruct (dir_find a b (st_dirs s)); [left; assumption|].
+    cbn [set_dirs st_dirs]. rewrite in_app_iff. cbn [In]. intros [H|[H|[]]]; auto.
+  Qed.
+
+  Lemma dir_start_tables s a b : exists d, dir_start s a b = set_dirs s d.
+  Proof. apply dir_start_core. Qed.
+
+  Lemma refresh_dirs s a b v : In (a, b, v) (st_dirs (refresh s)) -> v = resolve s a b.
+  Proof.
+    unfold refresh. cbn [set_dirs st_dirs]. rewrite in_map_iff.
+    intros [[[a' b'] v'] [E _]]. inversion E; subst. reflexivity.
+  Qed.
+
+  Lemma core_dirs s a : st_dirs (core s a) = st_dirs s.
+  Proof.
+    destruct a as [p|p|? ?]; cbn [core]; [| |reflexivity].
+    - unfold Model.do_est. destruct (Z.eqb _ _); [reflexivity|].
+      destruct (aget _ _) as [q|]; [destruct (Nat.eqb q p)|]; reflexivity.
+    - unfold Model.do_lost.
+      destruct (aget _ _) as [q|]; [destruct (Nat.eqb q p)|]; try reflexivity;
+        destruct (find_val _ _); reflexivity.
+  Qed.
+
+  Definition DirOk (me : Z) (h : list action) (a b : Z) (q : nat) : Prop :=
+    (a = 0 \/ a = me) /\ b <> 0 /\ remote_of q = b /\ remote_of q <> me /\ In (Est q) h.
+
+  Lemma lget_established me h q : lget (run me h) (uuid_of q) = Some q -> In (Est q) h.
+  Proof.
+    intros H. apply (rel_run me h) in H. unfold Model.live in H.
+    apply live_established in H as [[]|H]. exact H.
+  Qed.
+
+  Lemma run_snoc me h x : run me (h ++ [x]) = fst (step (run me h) x).
+  Proof. rewrite run_app. reflexivity. Qed.
+
+  Lemma resolve_ok me h s' a b q :
+    Inv s' -> st_peer s' = me ->
+    (forall q, lget s' (uuid_of q) = Some q -> In (Est q) h) ->
+    In q (resolve s' a b) -> DirOk me h a b q.
+  Proof.
+    intros I Hp HE H. apply resolve_sound_state in H; [|exact I].
+    rewrite Hp in H. destruct H as (H1 & H2 & H3 & H4 & H5). unfold DirOk. repeat split; auto.
+  Qed.
+
+  Theorem dirs_sound me h : forall a b v q,
+    In (a, b, v) (st_dirs (run me h)) -> In q v -> DirOk me h a b q.
+  Proof.
+    induction h as [|x h IH] using rev_ind; [intros a b v q []|].
+    intros a b v q Hin Hq.
+    assert (Hmono : forall a b q, DirOk me h a b q -> DirOk me (h ++ [x]) a b q).
+    { unfold DirOk. intros ? ? ? (?&?&?&?&?). repeat split; auto. apply in_or_app; auto. }
+    pose proof (inv_run me h) as I. pose proof (run_peer me h) as Hp.
+    assert (Hnew : forall s', s' = run me (h ++ [x]) ->
+                   forall d, In q (resolve (set_dirs s' d) a b) -> DirOk me (h ++ [x]) a b q).
+    { intros s' -> d H. rewrite resolve_set_dirs in H.
+      eapply resolve_ok; [apply inv_run|apply run_peer|apply lget_established|exact H]. }
+    assert (Hcur : In q (resolve (run me h) a b) -> DirOk me (h ++ [x]) a b q).
+    { intros H. apply Hmono. eapply resolve_ok; [exact I|exact Hp|apply lget_established|exact H]. }
+    rewrite run_snoc in Hin. rewrite run_snoc in Hnew.
+    set (s := run me h) in *.
+    destruct x as [p|p|src dst]; cbn [step_gen] in Hin, Hnew.
+    - destruct (est_stores U s p); cbn [fst] in Hin, Hnew.
+      + pose proof (refresh_dirs _ _ _ _ Hin) as ->.
+        destruct (dir_start_tables (do_est s p) (Model.local_of U p) (Model.remote_of U p)) as [d Ed].
+        rewrite Ed in Hq. apply (Hnew _ eq_refl d).
+        rewrite Ed. exact Hq.
+      + change (do_est s p) with (core s (Est p)) in Hin. rewrite core_dirs in Hin.
+        apply Hmono. eapply IH; eassumption.
+    - destruct (lb && lost_flushes U s p); cbn [fst] in Hin, Hnew.
+      + pose proof (refresh_dirs _ _ _ _ Hin) as ->.
+        apply (Hnew _ eq_refl (st_dirs (refresh (do_lost s p)))). exact Hq.
+      + change (do_lost s p) with (core s (Lost p)) in Hin. rewrite core_dirs in Hin.
+        apply Hmono. eapply IH; eassumption.
+    - destruct (Z.eqb dst 0); cbn [fst] in Hin; [apply Hmono; eapply IH; eassumption|].
+      assert (H1 : forall s1 a' b', (forall x, In x (st_dirs s1) -> In x (st_dirs s) \/ exists a'' b'', x = (a'', b'', resolve s a'' b'')) ->
+                   (exists d, s1 = set_dirs s d) ->
+                   forall x, In x (st_dirs (dir_start s1 a' b')) -> In x (st_dirs s) \/ exists a'' b'', x = (a'', b'', resolve s a'' b'')).
+      { intros s1 a' b' Hs1 [d ->] y Hy. apply dir_start_dirs in Hy as [Hy|Hy]; [auto|].
+        right. exists a', b'. rewrite Hy. reflexivity. }
+      assert (H0 : forall x, In x (st_dirs s) -> In x (st_dirs s) \/ exists a'' b'', x = (a'', b'', resolve s a'' b'')) by auto.
+      assert (Hfin : In (a, b, v) (st_dirs s) \/ exists a'' b'', (a, b, v) = (a'', b'', resolve s a'' b'')).
+      { destruct (Z.eqb src 0).
+        - eapply (H1 (dir_start s src dst)); [|apply dir_start_tables|exact Hin].
+          apply (H1 s); [exact H0|exists (st_dirs s); symmetry; apply set_dirs_eta].
+        - eapply (H1 s); [exact H0|exists (st_dirs s); symmetry; apply set_dirs_eta|exact Hin]. }
+      destruct Hfin as [Hold|[a'' [b'' E]]].
+      + apply Hmono. eapply IH; eassumption.
+      + injection E as Ea Eb Ev. rewrite Ev in Hq. rewrite <- Ea, <- Eb in Hq. apply Hcur, Hq.
+  Qed.
+
+  (* what a request yields when it is made after history h *)
+  Definition yielded (me : Z) (h : list action) (src dst : Z) : list nat :=
+    snd (step (run me h) (Resolve src dst)).
+
+  Theorem yielded_sound me h src dst q :
+    In q (yielded me h src dst) -> DirOk me h src dst q.
+  Proof.
+    unfold yielded. intros H.
+    assert (D : DirOk me (h ++ [Resolve src dst]) src dst q).
+    { cbn [step_gen] in H. destruct (Z.eqb dst 0) eqn:E0; [destruct H|]. cbn [snd] in H.
+      match type of H with In q (match dir_find _ _ (st_dirs ?s2) with _ => _ end) =>
+        destruct (dir_find src dst (st_dirs s2)) as [v|] eqn:Ef; [|destruct H];
+        assert (Es : s2 = run me (h ++ [Resolve src dst])) end.
+      { rewrite run_snoc. cbn [step_gen]. rewrite E0. reflexivity. }
+      apply dir_find_in in Ef. rewrite Es in Ef. eapply dirs_sound; eassumption. }
+    destruct D as (H1 & H2 & H3 & H4 & H5). unfold DirOk. repeat split; auto.
+    apply in_app_or in H5 as [H5|[H5|[]]]; [exact H5|discriminate].
+  Qed.
 End Proofs.
+
+(* ---- when HandleLinkLost broadcasts, the directives are always fresh ---- *)
+Section Fresh.
+  Variable U : nat -> link.
+  Notation step := (step_gen U true).
+  Notation run me h := (run_gen U true (init me) h).
+
+  Definition Fresh (s : state) : Prop :=
+    forall a b v, In (a, b, v) (st_dirs s) -> v = resolve s a b.
+
+  Lemma fresh_refresh s : Fresh (refresh s).
+  Proof. intros a b v H. apply refresh_dirs in H. exact H. Qed.
+
+  Lemma fresh_dir_start s a b : Fresh s -> Fresh (dir_start s a b).
+  Proof.
+    intros F a' b' v H. destruct (dir_start_core s a b) as [d E].
+    pose proof H as H'. apply dir_start_dirs in H' as [H'|H'].
+    - rewrite E, resolve_set_dirs. apply F, H'.
+    - inversion H'; subst. rewrite E, resolve_set_dirs. reflexivity.
+  Qed.
+
+  Lemma fresh_step s a : Inv U s -> Fresh s -> Fresh (fst (step s a)).
+  Proof.
+    intros I F. destruct a as [p|p|src dst]; cbn [step_gen].
+    - destruct (est_stores U s p) eqn:E; cbn [fst]; [apply fresh_refresh|].
+      (* nothing stored: self-dial or duplicate, linksByPeerID unchanged *)
+      unfold est_stores in E. unfold Model.do_est.
+      destruct (Z.eqb (Model.remote_of U p) (st_peer s)); cbn [negb andb] in E.
+      + intros a b v H. apply (F a b v H).
+      + destruct (aget (Model.uuid_of U p) (st_links s)) as [q|]; cbn [option_eqb] in E.
+        * destruct (Nat.eqb q p); [exact F|discriminate].
+        * discriminate.
+    - cbn [andb]. destruct (lost_flushes U s p) eqn:E; cbn [fst]; [apply fresh_refresh|].
+      (* the link was not in the table: nothing changes *)
+      unfold lost_flushes in E. apply orb_false_iff in E as [E1 E2].
+      unfold Model.do_lost.
+      destruct (find_val p (st_links s)); [discriminate|].
+      destruct (aget (Model.uuid_of U p) (st_links s)) as [q|]; cbn [option_eqb] in E1; [|exact F].
+      rewrite E1. exact F.
+    - destruct (Z.eqb dst 0); cbn [fst]; [exact F|].
+      destruct (Z.eqb src 0); [apply fresh_dir_start|]; apply fresh_dir_start, F.
+  Qed.
+
+  Lemma fresh_run me h : Fresh (run me h).
+  Proof.
+    induction h as [|x h IH] using rev_ind; [intros a b v []|].
+    rewrite (run_snoc U true). apply fresh_step; [apply (inv_run U true)|exact IH].
+  Qed.
+
+  Lemma dir_find_start s a b :
+    exists v, dir_find a b (st_dirs (dir_start s a b)) = Some v.
+  Proof.
+    unfold dir_start. destruct (dir_find a b (st_dirs s)) as [v|] eqn:E; [exists v; exact E|].
+    cbn [set_dirs st_dirs]. exists (resolve s a b).
+    induction (st_dirs s) as [|[[a' b'] v'] d IH]; cbn [dir_find app] in *.
+    - rewrite !Z.eqb_refl. reflexivity.
+    - destruct (Z.eqb a' a && Z.eqb b' b); [discriminate|auto].
+  Qed.
+
+  Lemma dir_find_keep s a b a' b' v :
+    dir_find a b (st_dirs s) = Some v -> dir_find a b (st_dirs (dir_start s a' b')) = Some v.
+  Proof.
+    intros H. unfold dir_start. destruct (dir_find a' b' (st_dirs s)); [exact H|].
+    cbn [set_dirs st_dirs]. revert H.
+    induction (st_dirs s) as [|[[x y] w] d IH]; cbn [dir_find app]; [discriminate|].
+    destruct (Z.eqb x a && Z.eqb y b); auto.
+  Qed.
+
+  (* with a broadcast after every table change, a request yields exactly the
+     live links between the two peers *)
+  Theorem yielded_is_live_when_lost_broadcasts me h src dst q :
+    In q (yielded U true me h src dst) <->
+    dst <> 0 /\ (src = 0 \/ src = me) /\ In q (live U me h) /\ Model.remote_of U q = dst.
+  Proof.
+    unfold yielded. cbn [step_gen].
+    pose proof (run_peer U true me h) as Hp.
+    destruct (Z.eqb_spec dst 0) as [->|Hd]; cbn [snd]; [split; [intros []|tauto]|].
+    set (s := run_gen U true (init me) h) in *.
+    set (s1 := dir_start s src dst).
+    set (s2 := if Z.eqb src 0 then dir_start s1 (st_peer s) dst else s1).
+    assert (F2 : Fresh s2).
+    { unfold s2. destruct (Z.eqb src 0); [apply fresh_dir_start|]; apply fresh_dir_start, (fresh_run me h). }
+    assert (T2 : exists d, s2 = set_dirs s d).
+    { unfold s2, s1. destruct (dir_start_core s src dst) as [d ->].
+      destruct (Z.eqb src 0); [|eauto].
+      destruct (dir_start_core (set_dirs s d) (st_peer s) dst) as [d' ->]. exists d'. reflexivity. }
+    assert (E2 : exists v, dir_find src dst (st_dirs s2) = Some v).
+    { unfold s2. destruct (dir_find_start s src dst) as [v Hv]. fold s1 in Hv.
+      destruct (Z.eqb src 0); [|eauto]. exists v. apply dir_find_keep, Hv. }
+    destruct E2 as [v Ev]. rewrite Ev.
+    pose proof (F2 _ _ _ (dir_find_in _ _ _ _ Ev)) as ->.
+    destruct T2 as [d T2]. rewrite T2, resolve_set_dirs. clear F2 Ev T2. subst s2 s1 s.
+    unfold resolve. destruct (Z.eqb_spec dst 0); [contradiction|]. rewrite Hp.
+    destruct (Z.eqb_spec src 0) as [->|Hs]; cbn [negb andb].
+    - rewrite (reported_is_live U true me h dst q). tauto.
+    - destruct (Z.eqb_spec src me) as [->|]; cbn [negb].
+      + rewrite (reported_is_live U true me h dst q). tauto.
+      + split; [intros []|]. intros (_ & [?|?] & _); contradiction.
+  Qed.
+End Fresh.
+
+(* ---- when it does not, a lost link keeps being yielded ---- *)
+Definition stale_univ : nat -> link := fun _ => mkLink 100 1 1 2.
+Definition stale_history : list action := [Resolve 1 2; Est 0%nat; Lost 0%nat].
+
+Theorem lost_link_still_yielded_without_broadcast :
+  In 0%nat (yielded stale_univ false 1 stale_history 1 2) /\
+  live stale_univ 1 stale_history = [] /\
+  get_peer_links stale_univ (run_gen stale_univ false (init 1) stale_history) 2 = [] /\
+  In 0%nat (st_closed (run_gen stale_univ false (init 1) stale_history)).
+Proof. vm_compute. repeat split; auto. Qed.
